@@ -171,6 +171,23 @@ theorem trace_meets_ctxOk (evs : List CtxEv) : ctxOk evs (Ctx.trace {} evs) = tr
     simp only
     rw [trace_openDisables evs [] {} ds (by simp [RelS]) (by simp [enOf]) h]
     simp
+theorem zip_flags_in_force : ∀ ds : List Nat, ((ds.zip (ds.map (· == 0))).all fun p => p.1 != 0 || p.2) = true
+  | [] => rfl
+  | d :: ds => by
+    have ih := zip_flags_in_force ds
+    simp only [List.map_cons, List.zip_cons_cons, List.all_cons, ih, Bool.and_true]
+    cases h : d == 0 <;> simp [bne, h]
 
+/-- the exact clause implies the direction the property states -/
+theorem ctxOk_imp_ctxInForce (evs : List CtxEv) (flags : List Bool) (h : ctxOk evs flags = true) :
+    ctxInForce evs flags = true := by
+  unfold ctxOk at h
+  unfold ctxInForce
+  cases hd : openDisables [] evs with
+  | none => rfl
+  | some ds =>
+    simp only [hd, beq_iff_eq] at h
+    subst h
+    simp [zip_flags_in_force]
 
 end Pyrtma.Validators
